@@ -60,27 +60,135 @@ def _contains_yield(fn):
 
 # --------------------------------------------------------------------------- N1
 class _IfExpDesugar(ast.NodeTransformer):
-    def _split(self, node, make):
-        v = node.value
-        if not isinstance(v, ast.IfExp):
+    """N1: a simple statement holding a conditional expression becomes an if/else of two
+    copies of the statement.  A conditional that is not the whole value is hoisted only
+    when its test is free of calls (so evaluating it first changes nothing)."""
+
+    @staticmethod
+    def _find(stmt):
+        """(parent, field, index, IfExp) of the first hoistable conditional expression"""
+        top = getattr(stmt, 'value', None)
+
+        def pure(t):
+            return not any(isinstance(x, (ast.Call, ast.Yield, ast.YieldFrom, ast.Await, ast.NamedExpr))
+                           for x in ast.walk(t))
+
+        def rec(n):
+            for field, val in ast.iter_fields(n):
+                items = val if isinstance(val, list) else [val]
+                for i, c in enumerate(items):
+                    if not isinstance(c, ast.AST):
+                        continue
+                    if isinstance(c, (ast.Lambda, ast.ListComp, ast.SetComp, ast.DictComp, ast.GeneratorExp,
+                                      ast.FunctionDef, ast.AsyncFunctionDef, ast.ClassDef)):
+                        continue
+                    if isinstance(c, ast.IfExp) and (c is top or pure(c.test)):
+                        return n, field, (i if isinstance(val, list) else None), c
+                    r = rec(c)
+                    if r is not None:
+                        return r
+            return None
+        return rec(stmt)
+
+    def _split(self, node, depth=0):
+        if depth > 6:
             return node
-        a = ast.copy_location(make(v.body), node)
-        b = ast.copy_location(make(v.orelse), node)
-        a = self._split(a, make)
-        b = self._split(b, make)
-        new = ast.If(test=v.test, body=[a], orelse=[b])
+        hit = self._find(node)
+        if hit is None:
+            return node
+        parent, field, idx, ie = hit
+
+        def variant(repl):
+            if idx is None:
+                setattr(parent, field, repl)
+            else:
+                getattr(parent, field)[idx] = repl
+            c = copy.deepcopy(node)
+            return c
+        a = variant(ie.body)
+        b = variant(ie.orelse)
+        a = self._split(a, depth + 1)
+        b = self._split(b, depth + 1)
+        new = ast.If(test=ie.test, body=[a], orelse=[b])
         return ast.copy_location(new, node)
 
     def visit_Assign(self, node):
-        self.generic_visit(node)
-        tg = node.targets
-        return self._split(node, lambda val: ast.Assign(targets=copy.deepcopy(tg), value=val, type_comment=None))
+        return self._split(node)
+
+    def visit_AugAssign(self, node):
+        return self._split(node)
+
+    def visit_Expr(self, node):
+        return self._split(node)
 
     def visit_Return(self, node):
-        self.generic_visit(node)
         if node.value is None:
             return node
-        return self._split(node, lambda val: ast.Return(value=val))
+        return self._split(node)
+
+    def visit_Lambda(self, node):
+        return node
+
+
+# --------------------------------------------------------------------------- N8
+def _pure_expr(e):
+    return not any(isinstance(x, (ast.Call, ast.Yield, ast.YieldFrom, ast.Await, ast.NamedExpr, ast.IfExp,
+                                  ast.Lambda, ast.ListComp, ast.SetComp, ast.DictComp, ast.GeneratorExp))
+                   for x in ast.walk(e))
+
+
+class _DictIdioms(ast.NodeTransformer):
+    """N8: D.setdefault(k, v) -> `if k not in D: D[k] = v` + D[k];
+    D.get(k, literal) -> D[k] if k in D else literal   (D and k free of calls)."""
+
+    def _rewrite(self, node):
+        pre = []
+
+        class T(ast.NodeTransformer):
+            def visit_Lambda(self, n):
+                return n
+
+            def visit_ListComp(self, n):
+                return n
+            visit_SetComp = visit_DictComp = visit_GeneratorExp = visit_ListComp
+
+            def visit_Call(self, n):
+                self.generic_visit(n)
+                f = n.func
+                if isinstance(f, ast.Attribute) and not n.keywords and len(n.args) == 2 \
+                        and _pure_expr(f.value) and _pure_expr(n.args[0]):
+                    D, k, v = f.value, n.args[0], n.args[1]
+                    sub = ast.copy_location(ast.Subscript(value=copy.deepcopy(D), slice=copy.deepcopy(k),
+                                                          ctx=ast.Load()), n)
+                    if f.attr == 'setdefault' and _pure_expr(v):
+                        tgt = ast.Subscript(value=copy.deepcopy(D), slice=copy.deepcopy(k), ctx=ast.Store())
+                        test = ast.Compare(left=copy.deepcopy(k), ops=[ast.NotIn()], comparators=[copy.deepcopy(D)])
+                        pre.append(ast.copy_location(ast.If(
+                            test=test, body=[ast.copy_location(ast.Assign(targets=[tgt], value=v, type_comment=None), n)],
+                            orelse=[]), n))
+                        return sub
+                    if f.attr == 'get' and (isinstance(v, ast.Constant) or (
+                            isinstance(v, (ast.List, ast.Tuple)) and not v.elts) or (
+                            isinstance(v, ast.Dict) and not v.keys)):
+                        test = ast.Compare(left=copy.deepcopy(k), ops=[ast.In()], comparators=[copy.deepcopy(D)])
+                        return ast.copy_location(ast.IfExp(test=test, body=sub, orelse=v), n)
+                return n
+        new = T().visit(node)
+        if isinstance(new, ast.Expr) and isinstance(new.value, ast.Subscript) and pre:
+            return pre
+        return pre + [new] if pre else new
+
+    def visit_Assign(self, node):
+        return self._rewrite(node)
+
+    def visit_AugAssign(self, node):
+        return self._rewrite(node)
+
+    def visit_Expr(self, node):
+        return self._rewrite(node)
+
+    def visit_Return(self, node):
+        return self._rewrite(node) if node.value is not None else node
 
     def visit_Lambda(self, node):
         return node
@@ -163,30 +271,112 @@ class _Unroll(ast.NodeTransformer):
         for n in _walk_no_nested(node):
             if isinstance(n, ast.Assign) and len(n.targets) == 1 and isinstance(n.targets[0], ast.Name) and \
                     isinstance(n.value, (ast.Tuple, ast.List)) and stores.get(n.targets[0].id) == 1 and \
-                    0 < len(n.value.elts) <= MAX_UNROLL and all(_simple_elt(e) for e in n.value.elts):
-                self.literals[n.targets[0].id] = n.value
+                    0 < len(n.value.elts) <= MAX_UNROLL and all(
+                        _simple_elt(e) or (isinstance(e, (ast.Tuple, ast.List)) and all(_simple_elt(x) for x in e.elts))
+                        for e in n.value.elts):
+                nm = n.targets[0].id
+                # a list that is changed after its creation is not the literal any more
+                if any(isinstance(x, ast.Attribute) and isinstance(x.value, ast.Name) and x.value.id == nm
+                       and x.attr in ('append', 'extend', 'insert', 'remove', 'pop', 'clear', 'sort', 'reverse')
+                       for x in _walk_no_nested(node)) or any(
+                        isinstance(x, (ast.Subscript,)) and isinstance(x.ctx, (ast.Store, ast.Del)) and isinstance(
+                            x.value, ast.Name) and x.value.id == nm for x in _walk_no_nested(node)) or any(
+                        isinstance(x, ast.AugAssign) and isinstance(x.target, ast.Name) and x.target.id == nm
+                        for x in _walk_no_nested(node)):
+                    continue
+                self.literals[nm] = n.value
         self.generic_visit(node)
         self.literals = saved
         return node
 
-    def visit_For(self, node):
-        self.generic_visit(node)
-        it = node.iter
+    def _bindings(self, target, it):
+        """[{loop variable: element expr}] for iterating a short literal (or a local naming
+        one) with a name / tuple-of-names target; None when not of that shape"""
         if isinstance(it, ast.Name) and it.id in self.literals:
             it = self.literals[it.id]
-        if isinstance(it, (ast.Tuple, ast.List)) and 0 < len(it.elts) <= MAX_UNROLL and \
-                isinstance(node.target, ast.Name) and not node.orelse and all(_simple_elt(e) for e in it.elts):
-            v = node.target.id
+        if not (isinstance(it, (ast.Tuple, ast.List)) and 0 < len(it.elts) <= MAX_UNROLL):
+            return None
+        out = []
+        for e in it.elts:
+            if isinstance(target, ast.Name) and _simple_elt(e):
+                out.append({target.id: e})
+            elif isinstance(target, (ast.Tuple, ast.List)) and isinstance(e, (ast.Tuple, ast.List)) and \
+                    len(e.elts) == len(target.elts) and all(isinstance(t, ast.Name) for t in target.elts) and \
+                    all(_simple_elt(x) for x in e.elts):
+                out.append({t.id: x for t, x in zip(target.elts, e.elts)})
+            else:
+                return None
+        return out
+
+    def _comp_items(self, comp, parts):
+        """the elements a comprehension over a short literal spells out"""
+        if len(comp.generators) != 1:
+            return None
+        g = comp.generators[0]
+        if g.ifs or g.is_async:
+            return None
+        binds = self._bindings(g.target, g.iter)
+        if binds is None:
+            return None
+        return [[_Subst(b).visit(copy.deepcopy(x)) for x in parts] for b in binds]
+
+    def visit_Call(self, node):
+        fn = node.func
+        if isinstance(fn, ast.Name) and fn.id in ('all', 'any', 'sum', 'list', 'tuple') and len(node.args) == 1 \
+                and not node.keywords and isinstance(node.args[0], (ast.GeneratorExp, ast.ListComp)):
+            items = self._comp_items(node.args[0], [node.args[0].elt])
+            if items is not None:
+                elts = [self.visit(i[0]) for i in items]
+                if fn.id in ('all', 'any'):
+                    new = elts[0] if len(elts) == 1 else ast.BoolOp(
+                        op=ast.And() if fn.id == 'all' else ast.Or(), values=elts)
+                elif fn.id == 'sum':
+                    new = elts[0]
+                    for x in elts[1:]:
+                        new = ast.BinOp(left=new, op=ast.Add(), right=x)
+                else:
+                    new = ast.List(elts=elts, ctx=ast.Load()) if fn.id == 'list' else ast.Tuple(elts=elts, ctx=ast.Load())
+                return ast.copy_location(new, node)
+        self.generic_visit(node)
+        return node
+
+    def visit_ListComp(self, node):
+        items = self._comp_items(node, [node.elt])
+        if items is None:
+            self.generic_visit(node)
+            return node
+        return ast.copy_location(ast.List(elts=[self.visit(i[0]) for i in items], ctx=ast.Load()), node)
+
+    def visit_GeneratorExp(self, node):
+        items = self._comp_items(node, [node.elt])
+        if items is None:
+            self.generic_visit(node)
+            return node
+        return ast.copy_location(ast.Tuple(elts=[self.visit(i[0]) for i in items], ctx=ast.Load()), node)
+
+    def visit_DictComp(self, node):
+        items = self._comp_items(node, [node.key, node.value])
+        if items is None:
+            self.generic_visit(node)
+            return node
+        return ast.copy_location(ast.Dict(keys=[self.visit(i[0]) for i in items],
+                                          values=[self.visit(i[1]) for i in items]), node)
+
+    def visit_For(self, node):
+        self.generic_visit(node)
+        binds = self._bindings(node.target, node.iter) if not node.orelse else None
+        if binds is not None:
+            names = set().union(*[set(b) for b in binds])
             body_nodes = [n for s in node.body for n in ast.walk(s)]
-            if any(isinstance(n, ast.Name) and n.id == v and isinstance(n.ctx, (ast.Store, ast.Del))
+            if any(isinstance(n, ast.Name) and n.id in names and isinstance(n.ctx, (ast.Store, ast.Del))
                    for n in body_nodes):
                 return node
             if _own_jumps(node.body, ast.Break):
                 return node
             has_continue = bool(_own_jumps(node.body, ast.Continue))
             out = []
-            for e in it.elts:
-                copy_body = [_Subst({v: e}).visit(copy.deepcopy(s)) for s in node.body]
+            for b in binds:
+                copy_body = [_Subst(b).visit(copy.deepcopy(s)) for s in node.body]
                 if has_continue:
                     copy_body = [x for s in copy_body for x in (lambda r: r if isinstance(r, list) else [r])(
                         _ContinueToBreak().visit(s))]
@@ -314,6 +504,25 @@ class Inliner:
         with locals and parameters substituted; else None"""
         env = dict(binding)
         body = [s for s in h.body if not _is_docstring(s) and not _is_logging(s)]
+
+        def as_expr(st):
+            # `if c: return A else: return B` (possibly nested) is the expression A if c else B
+            if isinstance(st, ast.Return) and st.value is not None:
+                return st.value
+            if isinstance(st, ast.If) and len(st.body) == 1 and len(st.orelse) == 1:
+                a, b = as_expr(st.body[0]), as_expr(st.orelse[0])
+                if a is not None and b is not None:
+                    return ast.copy_location(ast.IfExp(test=st.test, body=a, orelse=b), st)
+            return None
+        if len(body) >= 2 and isinstance(body[-2], ast.If) and not body[-2].orelse and isinstance(body[-1], ast.Return):
+            # guard clause: if c: return A ; return B
+            g = body[-2]
+            if len(g.body) == 1 and isinstance(g.body[0], ast.Return):
+                body = body[:-2] + [ast.copy_location(ast.If(test=g.test, body=g.body, orelse=[body[-1]]), g)]
+        if body and isinstance(body[-1], ast.If):
+            e = as_expr(body[-1])
+            if e is not None:
+                body = body[:-1] + [ast.copy_location(ast.Return(value=e), body[-1])]
         if not body or not isinstance(body[-1], ast.Return) or body[-1].value is None:
             return None
         for s in body[:-1]:
@@ -459,7 +668,46 @@ class _InlineStmts(ast.NodeTransformer):
         self.changed = True
         return out
 
+    def _hoist(self, node):
+        """nested calls of inlinable helpers inside a simple statement are computed into a
+        temporary first (the sub-expressions evaluated before them are plain reads)"""
+        top = getattr(node, 'value', None)
+        pre = []
+        me = self
+
+        class H(ast.NodeTransformer):
+            def visit_Lambda(self, n):
+                return n
+            visit_ListComp = visit_SetComp = visit_DictComp = visit_GeneratorExp = visit_Lambda
+            visit_IfExp = visit_BoolOp = visit_Lambda
+
+            def visit_Call(self, n):
+                self.generic_visit(n)
+                if n is top or (isinstance(top, ast.YieldFrom) and n is top.value):
+                    return n
+                owner, h, hname = me.inl.lookup(me.chain, n)
+                if h is None or not me.inl.eligible(h, hname, me.caller):
+                    return n
+                b = _bind(h, n)
+                if b is None or me.inl.pure_expr(h, b) is not None:
+                    return n
+                tmp = _fresh('val')
+                r = me._try(n, [ast.Name(id=tmp, ctx=ast.Store())], node)
+                if r is None:
+                    return n
+                pre.extend(r)
+                return ast.copy_location(ast.Name(id=tmp, ctx=ast.Load()), n)
+        H().visit(node)
+        return pre
+
+    def visit_AugAssign(self, node):
+        pre = self._hoist(node)
+        return pre + [node] if pre else node
+
     def visit_Expr(self, node):
+        pre = self._hoist(node)
+        if pre:
+            return pre + [node]
         if isinstance(node.value, ast.Call):
             r = self._try(node.value, None, node)
             if r is not None:
@@ -472,6 +720,10 @@ class _InlineStmts(ast.NodeTransformer):
         return node
 
     def visit_Assign(self, node):
+        pre = self._hoist(node)
+        if pre:
+            r = self.visit_Assign(node)
+            return pre + (r if isinstance(r, list) else [r])
         if isinstance(node.value, ast.Call):
             r = self._try(node.value, node.targets, node)
             if r is not None:
@@ -508,6 +760,11 @@ class _InlineStmts(ast.NodeTransformer):
         return node
 
     def visit_Return(self, node):
+        if node.value is not None:
+            pre = self._hoist(node)
+            if pre:
+                r = self.visit_Return(node)
+                return pre + (r if isinstance(r, list) else [r])
         v = node.value
         if isinstance(v, ast.ListComp) and len(v.generators) == 1 and not v.generators[0].ifs and \
                 Inliner._self_call(v.elt):
@@ -656,6 +913,7 @@ def _forward_process_temps(fn):
 
 def normalize_module(tree, no_inline, all_classes=None):
     """Normalise one module in place.  Returns {helper qual: inlined call count}."""
+    tree = _DictIdioms().visit(tree)
     tree = _IfExpDesugar().visit(tree)
     tree = _Unroll().visit(tree)
     classes = {n.name: n for n in tree.body if isinstance(n, ast.ClassDef)}
@@ -689,6 +947,7 @@ def normalize_module(tree, no_inline, all_classes=None):
                 t2.visit(fn)
                 if t1.changed or t2.changed:
                     # newly exposed conditional expressions / literal loops
+                    _DictIdioms().visit(fn)
                     _IfExpDesugar().visit(fn)
                     _Unroll().visit(fn)
                     _FoldConst().visit(fn)
